@@ -200,7 +200,9 @@ func pxPrograms(tier, checks string) []*Program {
 
 func init() {
 	scenarioSets["C01"] = func(tier string) []*Scenario { return programScenarios("C01", pxPrograms(tier, "layers"), 1) }
-	scenarioSets["C17"] = func(tier string) []*Scenario { return programScenarios("C17", pxPrograms(tier, "layers,stats"), 1) }
+	scenarioSets["C17"] = func(tier string) []*Scenario {
+		return append(hedgeTimingScenarios("C17/hedge-timing", tier, "stats"), programScenarios("C17", pxPrograms(tier, "layers,stats"), 1)...)
+	}
 	register(&CheckDef{
 		Property:  "C01",
 		Technique: "exhaustive enumeration of programs (policy stack x configuration x outcome script x history), each executed on the real code under the virtual runtime with a transparent probe between every two layers, and checked layer by layer against the documented behaviour of each policy",
@@ -213,23 +215,27 @@ func init() {
 	})
 	register(&CheckDef{
 		Property:  "C16",
-		Technique: "the C01 program enumeration with every listener of every builder registered, the event log of each execution checked against the event contract; plus schedule exploration of concurrent executions sharing listeners",
-		Rule: "same program space as C01; the oracle is the event contract: one OnDone and one of OnSuccess/OnFailure; OnRetryScheduled/OnRetry per retry decided/started and their order; OnRetriesExceeded/OnAbort at most once and only in the matching situation; " +
+		Technique: "the C01 program enumeration with every listener of every builder registered, the event log of each execution checked against the event contract; plus schedule exploration of concurrent executions sharing listeners, of hedge attempts returning around the hedge delays, and of async executions cancelled at every kind of instant",
+		Rule: "same program space as C01, plus the hedge-timing family of C09 (attempts returning before, at and after the instants the hedge delays expire); the oracle is the event contract: one OnDone and one of OnSuccess/OnFailure; OnRetryScheduled/OnRetry per retry decided/started and their order; OnRetriesExceeded/OnAbort at most once and only in the matching situation; " +
 			"breaker events = the reference machine's transitions, specific then generic; OnFull/OnRateLimitExceeded/OnTimeoutExceeded/OnFallbackExecuted/OnHedge/cache events exactly when the rejection, timeout, fallback, hedge, hit, miss, store happened; policy OnSuccess/OnFailure per classified result",
 		Assume: []string{"an abort-matching failure on the exhausting attempt may be reported as either story (one event)", "an execution without any cache key may or may not report a miss"},
 		Budget: map[string]time.Duration{"quick": 150 * time.Second, "thorough": 25 * time.Minute},
 		Units: func(tier string) []Unit {
-			return append(programUnits("C16", pxPrograms(tier, "layers,events"), 400, 1), c16ConcurrentUnits(tier)...)
+			us := append(programUnits("C16", pxPrograms(tier, "layers,events"), 400, 1), c16ConcurrentUnits(tier)...)
+			us = append(us, chunkUnits("C16", c16AsyncScenarios(tier), 10)...)
+			return append(us, chunkUnits("C16", hedgeTimingScenarios("C16/hedge-timing", tier, "events"), 40)...)
 		},
 	})
 	register(&CheckDef{
 		Property:  "C17",
 		Technique: "the C01 program enumeration with the execution statistics sampled at every point user code runs (function entry/exit, every listener, fallback, done event) and compared with the harness's own counts",
-		Rule: "same program space as C01; at every observation point Attempts = 1 + retries started + hedges started, Retries/Hedges equal the starts observed, Executions = invocations completed (exact without hedges, an upper bound during overlapping hedge attempts, exact at quiescence), " +
+		Rule: "same program space as C01, plus the hedge-timing family of C09 (attempts returning before, at and after the instants the hedge delays expire, every schedule within the bound); hedges started are counted from the goroutines the hedge policy actually spawned, not from its events; at every observation point Attempts = 1 + retries started + hedges started, Retries/Hedges equal the starts observed, Executions = invocations completed (exact without hedges, an upper bound during overlapping hedge attempts, exact at quiescence), " +
 			"IsFirstAttempt/IsRetry/IsHedge agree, LastResult/LastError = outcome of the previous attempt",
 		Assume: []string{"IsRetry is documented as Attempts > 1 and IsFirstAttempt as Attempts == 1 on the shared counter", "LastResult/LastError are compared at points where the observing attempt is not cancelled"},
 		Budget: map[string]time.Duration{"quick": 150 * time.Second, "thorough": 25 * time.Minute},
-		Units:  func(tier string) []Unit { return programUnits("C17", pxPrograms(tier, "layers,stats"), 200, 1) },
+		Units: func(tier string) []Unit {
+			return append(programUnits("C17", pxPrograms(tier, "layers,stats"), 200, 1), chunkUnits("C17", hedgeTimingScenarios("C17/hedge-timing", tier, "stats"), 40)...)
+		},
 	})
 }
 
